@@ -560,6 +560,32 @@ func (h *vc18H) shutdown(opens []*vc18Open) {
 	}
 }
 
+// reap waits for the accept goroutines of the case after shutdown.  A limiter
+// that fails to wake the waiters of a closed listener (which the checks report
+// before this runs) must not hang the harness, so the waiters are woken from
+// here; goroutines that still do not return are abandoned after a bounded wait.
+func (h *vc18H) reap() {
+	done := make(chan struct{})
+	go func() {
+		h.wg.Wait()
+		close(done)
+	}()
+
+	deadline := time.After(10 * time.Second)
+	for {
+		select {
+		case <-done:
+			return
+		case <-deadline:
+			return
+		case <-time.After(200 * time.Microsecond):
+			h.lim.counterCond.L.Lock()
+			h.lim.counterCond.Broadcast()
+			h.lim.counterCond.L.Unlock()
+		}
+	}
+}
+
 // ---------------------------------------------------------------------------
 // the property
 
@@ -614,7 +640,7 @@ func vc18Case(t *rapid.T, st *vstat.Stats) {
 	var opens []*vc18Open
 	defer func() {
 		h.shutdown(opens)
-		h.wg.Wait()
+		h.reap()
 	}()
 
 	ref := vc18Ref{stop: stop, resume: resume, acc: true}
@@ -989,7 +1015,6 @@ func vc18Case(t *rapid.T, st *vstat.Stats) {
 			o.closed = true
 		}
 
-		h.wg.Wait()
 		op := vc18Op{kind: vc18OpShutdown}
 		trace = append(trace, op.kind)
 		if check(op, nil) && (prev.cur != 0 || prev.live != 0 || !prev.acc) {
